@@ -30,7 +30,7 @@ aux == <<prun, pclose, padd, gated, mix>>
 R == Trace[tr]
 TInit ==
   /\ tr \in Starts /\ l = tr
-  /\ kind = R.kind /\ nr = R.r0 /\ nc = 0 /\ grace = (R.G >= 0) /\ pdl = R.pdl
+  /\ kind = R.kind /\ nr = R.r0 /\ nc = 0 /\ grace = R.G /\ pdl = R.pdl
   /\ now = 0
   /\ running = FALSE /\ closing = FALSE /\ closeCh = FALSE /\ stopped = FALSE /\ closeFS = FALSE /\ lockRun = FALSE
   /\ pcan = FALSE /\ ctx = FALSE
@@ -96,7 +96,7 @@ THookAddCloser ==     \* addcloser.afterCheck
      ELSE /\ Ev.j \in padd /\ AddCloserCall(Ev.j) /\ apc'[Ev.j] = "passed"
           /\ padd' = padd \ {Ev.j}
 TAddCloserRet ==
-  /\ Is("addcloser.ret") /\ Eat /\ UNCHANGED <<prun, pclose, mix>>
+  /\ (Is("addcloser.ret") \/ Is("addcloser.retmix")) /\ Eat /\ UNCHANGED <<prun, pclose, mix>>
   /\ gated' = IF gated = Ev.j THEN 0 ELSE gated
   /\ IF Ev.j \in padd
        THEN /\ ~Ev.ok /\ AddCloserCall(Ev.j) /\ apc'[Ev.j] = "done"      \* turned away at the first look
@@ -120,7 +120,7 @@ TFatal == Is("fatal") /\ Eat /\ GraceFire /\ UNCHANGED aux
 (* ---- quiescence and the virtual clock ---- *)
 TQ == /\ Is("q") /\ Eat /\ UNCHANGED <<vars, aux>>
       /\ QuiescentT /\ ~DeadlineDue /\ prun = 0 /\ pclose = {} /\ padd = {} /\ apr = 0
-Cands == {Ev.now} \cup (IF gpc = "timing" /\ garm + GraceTicks > now THEN {garm + GraceTicks} ELSE {})
+Cands == {Ev.now} \cup (IF gpc = "timing" /\ garm + grace > now THEN {garm + grace} ELSE {})
                   \cup (IF pdl > now /\ ~pcan THEN {pdl} ELSE {})
 SAdvance == /\ HasNext /\ Ev.now > now /\ Keep /\ UNCHANGED aux
             /\ QuiescentT /\ ~DeadlineDue
